@@ -7,6 +7,9 @@
 //!            r  the port is closed (connection refused)
 //!            c  the peer accepts and closes at once (tcp: a lost connection; tls: a failed handshake)
 //!            s  the peer accepts, serves one request, then closes (tcp only)
+//!            d  refused, and while the announced wait is pending the channel is disabled and enabled again
+//!               (the wait is abandoned: mark 'i' = a Disabled announcement lies between the wait and the
+//!               next Connecting)
 //!   variant  rtu   the REAL `spawn_rtu_client_task` on a pty (libc::openpty); script letters:
 //!            r  the device path does not exist (open fails)
 //!            o  the port opens, then the pty master is closed (the session is lost)
@@ -430,7 +433,7 @@ async fn scenario(line: String, ip: Ipv4Addr, n: usize) -> String {
             return "NOCONNECTING".to_string();
         }
         match outcome {
-            'r' => listener = None,
+            'r' | 'd' => listener = None,
             _ => {
                 if listener.is_none() {
                     listener = bind(addr).await;
@@ -443,6 +446,22 @@ async fn scenario(line: String, ip: Ipv4Addr, n: usize) -> String {
         let _ = permit_tx.send(()).await;
         match outcome {
             'r' => {}
+            'd' => {
+                // wait for the announcement of the wait, then disable and enable the channel
+                loop {
+                    match tokio::time::timeout(limit, ev_rx.recv()).await {
+                        Ok(Some((s, t))) => {
+                            log.push((s, t));
+                            if let ClientState::WaitAfterFailedConnect(_) = s {
+                                break;
+                            }
+                        }
+                        _ => return "NOWAIT".to_string(),
+                    }
+                }
+                let _ = channel.disable().await;
+                let _ = channel.enable().await;
+            }
             'c' => {
                 let l = listener.as_ref().unwrap();
                 match tokio::time::timeout(Duration::from_secs(3), l.accept()).await {
@@ -495,9 +514,12 @@ async fn scenario(line: String, ip: Ipv4Addr, n: usize) -> String {
             ClientState::WaitAfterDisconnect(d) => ('D', *d),
             _ => continue,
         };
-        let next = log[k + 1..].iter().find(|(s2, _)| *s2 == ClientState::Connecting);
+        let next_ix = log[k + 1..].iter().position(|(s2, _)| *s2 == ClientState::Connecting);
+        let next = next_ix.map(|ix| &log[k + 1 + ix]);
+        let interrupted = next_ix.map(|ix| log[k + 1..k + 1 + ix].iter().any(|(s2, _)| *s2 == ClientState::Disabled)).unwrap_or(false);
         let mark = match next {
             None => '?',
+            Some(_) if interrupted => 'i',
             Some((_, t2)) => {
                 if t2.duration_since(*t) >= d {
                     '+'
